@@ -207,11 +207,15 @@ thread_local! {
     static QUERIES_SEEN: RefCell<Vec<(i128, i128)>> = const { RefCell::new(Vec::new()) }; // (mono at request, mono at reply)
 }
 
+/// Raised when the polling loop asks chronyd again although it was told to stop after one iteration
+/// (a poller that ignores the abort message would otherwise spin for ever inside the harness).
+pub struct LoopEscape;
+
 fn chrony_hook(_req: RequestBody, _opt: ClientOptions) -> std::io::Result<Reply> {
     let q = SCRIPT.with(|s| s.borrow_mut().pop_front());
     let q = match q {
         Some(q) => q,
-        None => return Err(std::io::Error::new(std::io::ErrorKind::Other, "verif: no scripted answer")),
+        None => std::panic::resume_unwind(Box::new(LoopEscape)),
     };
     let before = vclock::get().mono_ns;
     vclock::log_mark();
@@ -262,7 +266,15 @@ impl PollerLife {
         let _ = dbox.send(&ChannelId::ClockErrorBoundPoller, Message::ThreadAbort);
         let ctx = Context { mbox: my_mbox, dbox, channel_id: ChannelId::ClockErrorBoundPoller };
         script(vec![q]);
-        verif_poller::run_poller(ctx, &mut self.poller, phc, std::time::Duration::from_millis(1000));
+        let poller = &mut self.poller;
+        let r = std::panic::catch_unwind(std::panic::AssertUnwindSafe(|| verif_poller::run_poller(ctx, poller, phc, std::time::Duration::from_millis(1000))));
+        if let Err(p) = r {
+            if p.downcast_ref::<LoopEscape>().is_none() {
+                std::panic::resume_unwind(p);
+            }
+            // the loop did not stop on the abort message (not this harness's subject: C15's); the messages
+            // of the one iteration that was scripted have been sent
+        }
         let mut out = vec![];
         while let Ok(m) = shm_mbox.try_recv() {
             out.push(m);
